@@ -230,6 +230,52 @@ theorem sTargets_ren (inF : Bool) (env : Env) (vars : VarList) (es : ExprList) :
         rw [ih, eE_ren hρ, eVT_ren hρ]
 
 mutual
+theorem rE_ren (inF : Bool) (env : Env) (e : Expr) : rE inF (renEnv ρ env) (e.ren ρ) = rE inF env e := by
+  cases e with
+  | paren sp e => exact rE_ren inF env e
+  | un sp op e => exact rE_ren inF env e
+  | bin sp l op r =>
+    show rE inF (renEnv ρ env) (l.ren ρ) ++ rE inF (renEnv ρ env) (r.ren ρ) = rE inF env l ++ rE inF env r
+    rw [rE_ren inF env l, rE_ren inF env r]
+  | func _ _ _ => rfl
+  | call c => cases c; rfl
+  | tbl sp fs => exact rFs_ren inF env fs
+  | dots t => exact sRead_ren hρ inF env t
+  | var v =>
+    cases v with
+    | name t => exact sRead_ren hρ inF env t
+    | expr sp p ss => exact rP_ren inF env p
+  | nil _ => rfl
+  | true_ _ => rfl
+  | false_ _ => rfl
+  | num _ => rfl
+  | str _ _ _ => rfl
+  | unsupported _ => rfl
+theorem rP_ren (inF : Bool) (env : Env) (p : Prefix) : rP inF (renEnv ρ env) (p.ren ρ) = rP inF env p := by
+  cases p with
+  | name t => exact sRead_ren hρ inF env t
+  | expr e => exact rE_ren inF env e
+theorem rFs_ren (inF : Bool) (env : Env) (fs : FieldList) : rFs inF (renEnv ρ env) (fs.ren ρ) = rFs inF env fs := by
+  cases fs with
+  | nil => rfl
+  | cons f rest =>
+    cases f with
+    | exprKey sp k v =>
+      show (rE inF (renEnv ρ env) (k.ren ρ) ++ rE inF (renEnv ρ env) (v.ren ρ)) ++ rFs inF (renEnv ρ env) (rest.ren ρ) =
+        (rE inF env k ++ rE inF env v) ++ rFs inF env rest
+      rw [rE_ren inF env k, rE_ren inF env v, rFs_ren inF env rest]
+    | nameKey sp k v =>
+      show rE inF (renEnv ρ env) (v.ren ρ) ++ rFs inF (renEnv ρ env) (rest.ren ρ) = rE inF env v ++ rFs inF env rest
+      rw [rE_ren inF env v, rFs_ren inF env rest]
+    | noKey v =>
+      show rE inF (renEnv ρ env) (v.ren ρ) ++ rFs inF (renEnv ρ env) (rest.ren ρ) = rE inF env v ++ rFs inF env rest
+      rw [rE_ren inF env v, rFs_ren inF env rest]
+    | unsupported sp =>
+      show [] ++ rFs inF (renEnv ρ env) (rest.ren ρ) = [] ++ rFs inF env rest
+      rw [rFs_ren inF env rest]
+end
+
+mutual
 theorem dE_ren (inF : Bool) (env : Env) (e : Expr) : dE inF (renEnv ρ env) (e.ren ρ) = dE inF env e := by
   cases e with
   | paren sp e => exact dE_ren inF env e
@@ -318,6 +364,56 @@ theorem sSs_ren (inF : Bool) (env : Env) (ss : SuffixList) : sSs inF (renEnv ρ 
     show eS inF (renEnv ρ env) (s.ren ρ) ++ dS inF (renEnv ρ env) (s.ren ρ) ++ sSs inF (renEnv ρ env) (rest.ren ρ) =
       eS inF env s ++ dS inF env s ++ sSs inF env rest
     rw [eS_ren hρ, dS_ren inF env s, sSs_ren inF env rest]
+theorem tE_ren (inF : Bool) (env : Env) (e : Expr) : tE inF (renEnv ρ env) (e.ren ρ) = tE inF env e := by
+  cases e with
+  | paren sp e => exact tE_ren inF env e
+  | un sp op e => exact tE_ren inF env e
+  | bin sp l op r =>
+    show tE inF (renEnv ρ env) (l.ren ρ) ++ tE inF (renEnv ρ env) (r.ren ρ) = tE inF env l ++ tE inF env r
+    rw [tE_ren inF env l, tE_ren inF env r]
+  | func sp kw body => exact sBody_ren env none body
+  | call c =>
+    cases c with
+    | mk sp p ss =>
+      show eP inF (renEnv ρ env) (p.ren ρ) ++ dP inF (renEnv ρ env) (p.ren ρ) ++ sSs inF (renEnv ρ env) (ss.ren ρ) =
+        eP inF env p ++ dP inF env p ++ sSs inF env ss
+      rw [eP_ren hρ, dP_ren inF env p, sSs_ren inF env ss]
+  | tbl sp fs => exact tFs_ren inF env fs
+  | dots t => rfl
+  | var v =>
+    cases v with
+    | name t => rfl
+    | expr sp p ss =>
+      show tP inF (renEnv ρ env) (p.ren ρ) ++ sSs inF (renEnv ρ env) (ss.ren ρ) = tP inF env p ++ sSs inF env ss
+      rw [tP_ren inF env p, sSs_ren inF env ss]
+  | nil _ => rfl
+  | true_ _ => rfl
+  | false_ _ => rfl
+  | num _ => rfl
+  | str _ _ _ => rfl
+  | unsupported _ => rfl
+theorem tP_ren (inF : Bool) (env : Env) (p : Prefix) : tP inF (renEnv ρ env) (p.ren ρ) = tP inF env p := by
+  cases p with
+  | name t => rfl
+  | expr e => exact tE_ren inF env e
+theorem tFs_ren (inF : Bool) (env : Env) (fs : FieldList) : tFs inF (renEnv ρ env) (fs.ren ρ) = tFs inF env fs := by
+  cases fs with
+  | nil => rfl
+  | cons f rest =>
+    cases f with
+    | exprKey sp k v =>
+      show (tE inF (renEnv ρ env) (k.ren ρ) ++ tE inF (renEnv ρ env) (v.ren ρ)) ++ tFs inF (renEnv ρ env) (rest.ren ρ) =
+        (tE inF env k ++ tE inF env v) ++ tFs inF env rest
+      rw [tE_ren inF env k, tE_ren inF env v, tFs_ren inF env rest]
+    | nameKey sp k v =>
+      show tE inF (renEnv ρ env) (v.ren ρ) ++ tFs inF (renEnv ρ env) (rest.ren ρ) = tE inF env v ++ tFs inF env rest
+      rw [tE_ren inF env v, tFs_ren inF env rest]
+    | noKey v =>
+      show tE inF (renEnv ρ env) (v.ren ρ) ++ tFs inF (renEnv ρ env) (rest.ren ρ) = tE inF env v ++ tFs inF env rest
+      rw [tE_ren inF env v, tFs_ren inF env rest]
+    | unsupported sp =>
+      show [] ++ tFs inF (renEnv ρ env) (rest.ren ρ) = [] ++ tFs inF env rest
+      rw [tFs_ren inF env rest]
 theorem sBody_ren (env : Env) (selfTok : Option Tok) (body : FuncBody) :
     sBody (renEnv ρ env) selfTok (body.ren ρ) = sBody env selfTok body := by
   cases body with
@@ -419,10 +515,10 @@ theorem sStmt_ren (inF : Bool) (env : Env) (s : Stmt) :
   | repeat_ sp b c =>
     refine ⟨?_, rfl⟩
     obtain ⟨h1, h2⟩ := sBlock_ren inF env b
-    show (sBlock inF (renEnv ρ env) (b.ren ρ)).1 ++ dE inF (sBlock inF (renEnv ρ env) (b.ren ρ)).2 (c.ren ρ) ++
-        eE inF (sBlock inF (renEnv ρ env) (b.ren ρ)).2 (c.ren ρ) =
-      (sBlock inF env b).1 ++ dE inF (sBlock inF env b).2 c ++ eE inF (sBlock inF env b).2 c
-    rw [h1, h2, dE_ren inF _ c, eE_ren hρ]
+    show (sBlock inF (renEnv ρ env) (b.ren ρ)).1 ++ tE inF (sBlock inF (renEnv ρ env) (b.ren ρ)).2 (c.ren ρ) ++
+        rE inF (sBlock inF (renEnv ρ env) (b.ren ρ)).2 (c.ren ρ) =
+      (sBlock inF env b).1 ++ tE inF (sBlock inF env b).2 c ++ rE inF (sBlock inF env b).2 c
+    rw [h1, h2, tE_ren inF _ c, rE_ren hρ]
   | if_ sp c b elifs els =>
     refine ⟨?_, rfl⟩
     cases els with
